@@ -61,7 +61,13 @@ def collision_programs():
 
 def run(res, tier, rng, table_diffs=()):
     from .common_diff import run_cases
-    run_cases(res, "C15", [("collision", p) for p in collision_programs()])
+    lit = []
+    for v in lattice.int_lattice(lattice.QUICK_KS if tier == "quick" else lattice.ALL_KS) + [2 ** 53 - 1, 2 ** 53, 2 ** 53 + 1, 2 ** 53 + 3, 9007199254740993, 123456789012345678,
+                                                                                    2 ** 60 - 1, 2 ** 60 - 2, 2 ** 60 - 65, 2 ** 60, 2 ** 60 + 1, 2 ** 63, 2 ** 64]:
+        if v >= 0:
+            lit.append(("int-literal", "%d" % v))
+            lit.append(("int-literal", "[%d, %d == %d, %d - 1, string(%d), type(%d)]" % (v, v, v + 1 if v + 1 < 2 ** 60 else v, v, v, v)))
+    run_cases(res, "C15", lit + [("collision", p) for p in collision_programs()])
     sp = specs(tier, rng)
     reqs = ["obj enc " + s for s in sp]
     # arrays
